@@ -41,7 +41,7 @@ theorem C17_notfull_admitted (n : Nat) (pool : List Slot) (low : Bool) (h : ¬ (
 theorem C17_evict_exactly_one (s s' : Sys) (i eid key : Nat) (hev : (s.insts i).evictPending = true)
     (h : step s (.nackEvicted i eid key) = some s') :
     (s'.insts i).evictPending = false ∧ (s'.insts i).pool.length + 1 = (s.insts i).pool.length ∧
-    ∃ k, List.findIdx? (fun sl => sl.eid == eid && sl.low) (s.insts i).pool.dropLast = some k := by
+    ∃ k, List.findIdx? (fun sl => sl.key == key && sl.low) (s.insts i).pool.dropLast = some k := by
   simp only [step, hev, if_true] at h
   split at h
   · rename_i nw k hlast hfind
